@@ -324,6 +324,14 @@ enum Op {
     AccountFromFieldElements,
     AccountFromInputs,
     BuildInputs,
+    /// rejection paths: a decoder is handed the secret next to a malformed rest and must
+    /// refuse it without leaving the secret in a freed block
+    NullifierFromFeltsBadCountLo,
+    NullifierFromFeltsBadCountHi,
+    NullifierFromFeltsBadLen,
+    NullifierFromBytesBadLen,
+    AccountFromFeltsBadLen,
+    AccountFromBytesBadLen,
     Drop(Ty),
 }
 
@@ -352,6 +360,12 @@ fn alphabet() -> Vec<Op> {
         AccountFromFieldElements,
         AccountFromInputs,
         BuildInputs,
+        NullifierFromFeltsBadCountLo,
+        NullifierFromFeltsBadCountHi,
+        NullifierFromFeltsBadLen,
+        NullifierFromBytesBadLen,
+        AccountFromFeltsBadLen,
+        AccountFromBytesBadLen,
     ];
     for t in TYS {
         v.push(Drop(t));
@@ -570,6 +584,41 @@ fn step(w: &mut World, op: Op, val: &Pattern) {
             }
         }
         BuildInputs => w.pool.push(Obj::Inp(Box::new(build_inputs(secret, val.tc)))),
+        NullifierFromFeltsBadCountLo | NullifierFromFeltsBadCountHi | NullifierFromFeltsBadLen => {
+            // the caller's elements live on the stack (not the allocator's business)
+            let hash: Digest = bytes_to_digest(BytesDigest::new_unchecked(PUBLIC_HASH));
+            let big = plonky2::field::types::Field::from_noncanonical_u64(1u64 << 32);
+            let one = plonky2::field::types::Field::from_canonical_u64(1);
+            let (c0, c1) = if op == NullifierFromFeltsBadCountLo { (one, big) } else { (big, one) };
+            let elems = [hash[0], hash[1], hash[2], hash[3], want_felts[0], want_felts[1], want_felts[2], want_felts[3], c0, c1];
+            let slice: &[_] = if op == NullifierFromFeltsBadLen { &elems[..9] } else { &elems[..] };
+            if Nullifier::from_field_elements(slice).is_ok() {
+                w.problems.push("Nullifier::from_field_elements accepted malformed elements".into());
+            }
+        }
+        NullifierFromBytesBadLen => {
+            let mut buf = [0u8; 71];
+            buf[..32].copy_from_slice(&PUBLIC_HASH);
+            buf[32..64].copy_from_slice(&val.bytes);
+            if Nullifier::from_bytes(&buf).is_ok() {
+                w.problems.push("Nullifier::from_bytes accepted 71 bytes".into());
+            }
+        }
+        AccountFromFeltsBadLen => {
+            let acc: Digest = bytes_to_digest(BytesDigest::new_unchecked(PUBLIC_ACCOUNT));
+            let elems = [acc[0], acc[1], acc[2], acc[3], want_felts[0], want_felts[1], want_felts[2], want_felts[3], want_felts[0]];
+            if UnspendableAccount::from_field_elements(&elems).is_ok() || UnspendableAccount::from_field_elements(&elems[..7]).is_ok() {
+                w.problems.push("UnspendableAccount::from_field_elements accepted a wrong length".into());
+            }
+        }
+        AccountFromBytesBadLen => {
+            let mut buf = [0u8; 65];
+            buf[..32].copy_from_slice(&PUBLIC_ACCOUNT);
+            buf[32..64].copy_from_slice(&val.bytes);
+            if UnspendableAccount::from_bytes(&buf).is_ok() || UnspendableAccount::from_bytes(&buf[..63]).is_ok() {
+                w.problems.push("UnspendableAccount::from_bytes accepted a wrong length".into());
+            }
+        }
         Drop(t) => {
             let i = last_of(&w.pool, t);
             let o = w.pool.remove(i);
